@@ -67,6 +67,12 @@ def run(ctx):
                 if bp is None or bw is None:
                     if match(pat("list($m.keys())"), rw) is not None or match(pat("list($m.values())"), rp) is not None:
                         o.violated(sf, c, "population and weights are exchanged")
+                    elif (bw is not None) != (bp is not None) and any(
+                            match(pat(f"{w_}($m.{side}())"), r_) is not None or (side == "keys" and match(pat(f"{w_}($m)"), r_) is not None)
+                            for w_ in ("sorted", "reversed", "set", "frozenset") for r_, side in ((rp, "keys"), (rw, "values"))):
+                        odd_ = rp if bp is None else rw
+                        o.violated(sf, c, f"`{txt(odd_)}` re-orders one side only: keys and weights are paired by POSITION, so every key is drawn with the weight of whatever key "
+                                          "happens to stand at its place in the dictionary's own order", shape_free=True)
                     elif bp is not None and not any((isinstance(x, ast.Attribute) and x.attr in ("values", "items", "get")) or
                                                      (isinstance(x, ast.Subscript) and "_jdd" in txt(x.value)) for x in ast.walk(rw)):
                         o.violated(sf, c, f"weights `{txt(rw)}` are not derived from the distribution's probabilities")
